@@ -8,6 +8,7 @@ from .. import paths
 from ..core import FUNC, call_attr, calls_in, dotted, norm, text, walk_local
 
 EXPLANATION = [
+    'C04.dead-default-check: no value obtained by indexing a defaultdict attribute is afterwards tested for absence (`is None` / falsy): such a test is dead and the lookup has created the entry (drain() would wait on a fresh event nobody sets).',
     'C04.fifo: every deque of the anchored modules that is filled with append / extend is emptied with popleft or by iteration (never pop()), and conversely: queued entries come out in the order they went in.',
     'C04.one-shot: no name bound to a generator expression or to filter() / map() / zip() / reversed() / enumerate() is read in more than one consuming position or inside a loop that evaluates it repeatedly: such an iterator is empty after its first walk.',
     'C04.bounded-buffers: the host data queue and the flow-controlled pipe keep waiting packets in unbounded containers: a long backlog is never shortened silently.',
@@ -587,7 +588,13 @@ def fifo_rule(ctx):
     fifo_discipline(ctx, 'C04.fifo', ['bumble.host', 'bumble.utils'])
 
 
+def dead_default_check_rule(ctx):
+    from ..generic_rules import dead_default_check
+    dead_default_check(ctx, 'C04.dead-default-check', ['bumble.host'])
+
+
 RULES = [
+    ('C04.dead-default-check', dead_default_check_rule),
     ('C04.fifo', fifo_rule),
     ('C04.one-shot', one_shot_rule),
     ('C04.bounded-buffers', bounded_buffers_rule),
